@@ -426,6 +426,9 @@ def case_source(prop, name, progast, nparams, pv, kind, data, what, path, extra=
                  '        while let Some(c) = it.next() { o.push(c); if c == \'_\' { if it.peek() == Some(&\'.\') { it.next(); while it.peek().map_or(false, |d| d.is_ascii_digit()) { it.next(); } } } } o };\n'
                  '    let mut got: Vec<String> = query.run().take(LIMIT).map(|r| re(format!("{}", *r.q))).collect();\n'
                  '    let mut expected: Vec<String> = vec![%s];\n%s    assert_eq!(got, expected);\n' % (exp, srt))
+    if kind in ('instance', 'multiset', 'sequence', 'subset', 'covers'):
+        # the hash-based stores are seeded anew on every run of the query: a failure on any of 30 runs reproduces the violation
+        check = '    for _run in 0..30 {\n' + check + '    }\n'
     return '''// Counterexample found by mirsym/z3 for property %s, template %s: %s
 // Replay: /verif/check %s --replay %s
 #![allow(unused_imports, unused_variables, unused_mut)]
@@ -457,6 +460,15 @@ impl Solve<TU, TE> for Succ {
         }
     }
 }
+#[derive(Debug)]
+pub struct SameVar { u: T, v: T, out: T }
+impl Solve<TU, TE> for SameVar {
+    fn solve(&self, _solver: &Solver<TU, TE>, state: State<TU, TE>) -> Stream<TU, TE> {
+        let same = if self.u == self.v { 1 } else { 0 };
+        match state.unify(&LTerm::from(same), &self.out) { Ok(st) => Stream::unit(Box::new(st)), Err(_) => Stream::empty() }
+    }
+}
+pub fn samevar(u: T, v: T, out: T) -> Goal<TU, TE> { Goal::dynamic(Rc::new(SameVar { u, v, out })) }
 pub fn succ(u: T, v: T) -> Goal<TU, TE> { Goal::dynamic(Rc::new(Succ { u, v, mode: 0 })) }
 pub fn succ_head(u: T, v: T) -> Goal<TU, TE> { Goal::dynamic(Rc::new(Succ { u, v, mode: 1 })) }
 %s
